@@ -62,7 +62,14 @@ class GraphAdapter:
         return self._g
 
     def to_matrix(self, preserve_scalar=True):
-        return self.sync().to_matrix(preserve_scalar)
+        # the plain tensor contraction: the default ('auto' -> rank-width) strategy of the installed
+        # pyzx first runs full_reduce on a copy, which raises KeyError on some graphs (seen in a
+        # thorough run); the naive contraction touches nothing
+        g = self.sync()
+        try:
+            return g.to_matrix(preserve_scalar, strategy='naive')
+        except TypeError:
+            return g.to_matrix(preserve_scalar)
 
 
 def _factory(*args, **kwargs):
